@@ -218,6 +218,33 @@ fn handle(db: &anything::Db, line: &str) -> Value {
                     Err(e) => json!({ "err": e.to_string() }),
                 }
             }
+            // C s: every constant of every shipped data file: decode, re-encode, decode again
+            Some(&"s") => {
+                #[derive(serde::Deserialize)]
+                struct Doc {
+                    #[serde(default)]
+                    constants: Vec<anything::Constant>,
+                }
+                let mut out = Vec::new();
+                let mut files: Vec<_> = match std::fs::read_dir("/repo/db") { Ok(d) => d.filter_map(|e| e.ok()).map(|e| e.path()).collect(), Err(_) => Vec::new() };
+                files.sort();
+                for path in files {
+                    let name = path.file_name().map(|n| n.to_string_lossy().to_string()).unwrap_or_default();
+                    if name == "sources.bin.gz" || !name.ends_with(".bin.gz") { continue; }
+                    let Ok(f) = std::fs::File::open(&path) else { continue };
+                    let doc: Result<Doc, _> = serde_cbor::from_reader(flate2::read::GzDecoder::new(f));
+                    let Ok(doc) = doc else { out.push(json!({"file": name, "undecodable": 1})); continue };
+                    for c in doc.constants {
+                        let bytes = serde_cbor::to_vec(&c).ok();
+                        let back: Option<anything::Constant> = bytes.as_ref().and_then(|b| serde_cbor::from_slice(b).ok());
+                        let same = back.as_ref().map(|b| b.value == c.value && b.unit == c.unit && b.description == c.description && b.tokens == c.tokens && b.source == c.source);
+                        out.push(json!({"file": name, "tokens": c.tokens.iter().map(|t| t.to_string()).collect::<Vec<_>>(), "value": rat(&c.value), "unit": names(&c.unit),
+                                        "value_cbor": serde_cbor::to_vec(&c.value).ok().map(hex), "unit_cbor": serde_cbor::to_vec(&c.unit).ok().map(hex),
+                                        "constant_cbor": bytes.map(hex), "description": c.description.to_string(), "source": c.source, "roundtrip": same}));
+                    }
+                }
+                Value::Array(out)
+            }
             _ => json!({"bad": 1}),
         },
         _ => json!({ "bad": 1 }),
